@@ -136,8 +136,21 @@ ROUND4 = {
     "C07": " Round 4: in 15% of the cut cases the LIMIT / OFFSET / PERCENT / FETCH counts are read from variables, the query runs twice with other integer and float arithmetic in between, and the second result is the one judged.",
     "C09": " Round 4: sub-check transfers - transactions holding SEVERAL tables for update at once (two counters with constant sum and a log table; two-statement transfers in either order, multi-table UPDATE in either FROM order, a FOR UPDATE reader of both counters whose sum must be 0); opposite acquisition orders deadlock, and the deadlock is broken by delivering the wait timeout to a drawn victim once no process has made progress for a drawn number of steps: the victim must fail with the lock-timeout error, leave nothing of the table it had already changed, and release it.",
     "C10": " Round 4: sub-check write_fault (commit stopped by a file size limit, then retry / rollback / close) and sub-check async_kill - SIGKILL from outside at drawn instants (fractions of the measured duration of an uninterrupted commit after a marker printed right before COMMIT) on tables of several hundred KiB, so that the death also falls inside bursts of write(2) calls and between un-hooked steps; same old-or-new and recovery oracle.",
+    "C13": " Round 4: REPLACE with keys that are not unique in the target (rows of different workers match one given record); a user-defined function that EXECUTEs a dynamic statement text per row, so several goroutines are inside the parser at once.",
     "C11": " Round 4: ending vanish_while_waiting (the table is removed and its lock released while csvq waits for the lock); in 22% of the cases the leading statements are not in the program but in a csvqrc preload file of the current directory, so errors, EXIT and signals at every verification point also strike during the preload phase.",
 }
+ROUND4.update({
+    "C03": " Round 4: sub-checks subquery_predicates (correlated EXISTS / [NOT] IN / ANY / ALL / scalar subqueries in WHERE, ON, nested conditions and select items; some tables of 160-400 rows at cpu 2-16), deep_nesting (depth 4-7, LATERAL chains reaching several levels up, WITH inside nested queries with shadowed CTE names), table_sources (CSV/TSV/JSON/JSONL/LTSV files and stdin, each referred to as bare name, quoted path, format function, FILE::, INLINE:: or STDIN) and recursive_union (chain/tree/diamond/cyclic edge tables, UNION and UNION ALL, four recursion forms, @@LIMIT_RECURSION: the documented iteration result or the recursion-limit error).",
+    "C05": " Round 4: sub-check bulk (the same operations, model and oracle over tables of 81-700 records at cpu 1 and 2-8, so the statements run on several goroutines); tables in CSV/TSV/JSON/JSONL/LTSV/fixed-length (explicit positions) re-read in their format after COMMIT; a payload column of odd cell texts no statement reads; [NOT] IN / EXISTS subqueries, WITH and derived-table sources, PREPARE/EXECUTE with every literal a placeholder, VALUES with arithmetic and scalar subqueries, tables created inside the transaction.",
+    "C12": " Round 4: cpu drawn from all of 1..16 and table sizes straddling 300 (loader capacity), 640 and 1280 rows (8 and 16 goroutines); sub-checks nested (order-sensitive correlated subqueries whose inner and outer levels both split over goroutines), row_error (a statement failing for 1-3 rows at drawn chunk positions: result sets, error text and file bytes must equal the cpu=1 run) and sources (tables as CSV/TSV/LTSV/JSON/JSONL files, temporary tables filled from files, STDIN and inline tables, CREATE TABLE AS in a drawn format); the CLI sub-check draws the output format from ten formats and sends results to --out in a third of the cases.",
+    "C14": " Round 4: sub-check dml_repeat (1-3 data-changing items evaluated repeatedly through ONE syntax tree - WHILE, cursor loop, function with DEFAULT parameter, prepared statement - against the same work with a freshly parsed tree per evaluation; trees must equal a pristine parse; poisoned-pool run must agree); the programs generator wraps 20% of atoms in parentheses, reads row counts / offsets from variables, runs value-taking commands (SET @@flag, ADD/REMOVE @@DATETIME_FORMAT, SET @%ENV, ECHO, PRINTF, EXECUTE .. USING) and built-ins on arguments that already have their natural type, recursive CTEs, LATERAL, recursive functions and cursors over prepared statements; 40% of dml_isolation runs under the poisoning Discard.",
+    "C15": " Round 4: WHILE / WHILE IN conditions read pool-named variables, functions and cursors that the loop body re-declares (guarded loops); concurrent invocations also from WHERE, ORDER BY, GROUP BY, two functions per record and UPDATE SET at cpu 2-8; sub-check deep (one chain of 8-36 nested blocks with variables reached through every block, or recursion 17-90 invocations deep).",
+    "C16": " Round 4: offsets near +-2^31, +-2^62 and the integer limits; sub-check cursor_shapes (tables of 0-400 rows as CSV/TSV/JSON/LTSV/temporary table at cpu 1-4, 17 query forms with typed columns, cursors on queries and prepared statements, 16 kinds of data change, WHILE IN with CONTINUE / FETCH in the body / nesting / failing body, re-OPEN after the statement was re-prepared or replaced) and sub-check pseudo_cursor (a generated walk inside a user-defined aggregate over its pseudo cursor, per table / group / DISTINCT values / analytic partition, concurrent at cpu 2-4).",
+    "C17": " Round 4: sub-check sources (the rows the call sees come from a GROUP BY result, a join, a CSV/TSV/JSON file or expression keys; the call sits in the select list, inside a larger expression, twice in a CASE, only in ORDER BY, or both, with LIMIT); STDEV/STDEVP/VAR/VARP and DISTINCT list functions; tables of 16-120 rows with up to 42 partitions at cpu 2-8.",
+    "C18": " Round 4: table objects of every format and grammar alternative, STDIN references, keywords usable as bare identifiers, INTO clauses (variable side effects compared); sub-check literals (arbitrary content in two independently drawn equivalent spellings at 15 positions, both quote styles of strings and identifiers: values unchanged after print/parse) and sub-check statements (23 statement templates - PREPARE / EXECUTE text, DECLARE, cursors, DML, control flow - whose holes are filled by the query grammar: the program of source texts and the program of printed texts must have the same effects).",
+    "C19": " Round 4: program kinds join (22 operands x 22 join forms incl. LATERAL, alias clashes), parallel (330- and 170-row tables at cpu 2-16 with every scalar built-in per record and a function failing on one record) and udf (35 function bodies called from 28 sites, 11 inside DML); load_data at cpu > 1; sub-check cli_subcommands (fields, calc, syntax, check-update, help with generated arguments, 48 global options with boundary values, csvq_env.json / csvqrc at the four searched places); file-system state held_control_files and table-object variants of the existing states.",
+    "C20": " Round 4: every statement of A, B and B2 respells its tables (relative, ./, sub/.., absolute with redundant separators or dot segments, with and without extension; model keyed by file); sub-checks history_forms (indirect reads through FROM-subquery, CTE, temporary view, aggregate, user function, self join of two spellings; REPLACE, INSERT..SELECT from the target, DML with IN-subqueries; five file formats; tables beyond the goroutine split), schema (ALTER TABLE ADD/DROP/RENAME by A and by B, model of column names and cells), procedure_process (A is one real csvq process whose procedure starts the B processes between its statements) and table_names (two tables with close names modelled independently).",
+})
 for _pid, _t in ROUND4.items():
     CHECKS[_pid]["text"] += _t
 
